@@ -737,9 +737,16 @@ P("series_reset_index_former_index", lambda t: t.df.a.reset_index()["index"], ne
 P("series_reset_index_values_column", lambda t: t.df.a.reset_index()["a"], needs_range=True)
 P("series_reset_index_former_index_filtered", lambda t: (lambda r: r[r["index"] > 2])(t.df.u.reset_index()), needs_range=True)
 # joins on differently named keys, filtered on the key of the side whose unmatched rows the join does NOT keep
+# (tag joinpred: part of C03's join-predicate programs)
 for _how in ("left", "right", "outer", "inner"):
-    P(f"merge_diffkeys_{_how}_filter_right_key", lambda t, h=_how: (lambda m: m[m.j > 1])(t.df[["a", "u"]].merge(t.df2[["a", "w"]].rename(columns={"a": "j"}), left_on="a", right_on="j", how=h)), order_free=True, index_free=True)
-    P(f"merge_diffkeys_{_how}_filter_left_key", lambda t, h=_how: (lambda m: m[m.a > 1])(t.df[["a", "u"]].merge(t.df2[["a", "w"]].rename(columns={"a": "j"}), left_on="a", right_on="j", how=h)), order_free=True, index_free=True)
+    P(f"merge_diffkeys_{_how}_filter_right_key", lambda t, h=_how: (lambda m: m[m.j > 1])(t.df[["a", "u"]].merge(t.df2[["a", "w"]].rename(columns={"a": "j"}), left_on="a", right_on="j", how=h)), order_free=True, index_free=True, tags={"joinpred"})
+    P(f"merge_diffkeys_{_how}_filter_left_key", lambda t, h=_how: (lambda m: m[m.a > 1])(t.df[["a", "u"]].merge(t.df2[["a", "w"]].rename(columns={"a": "j"}), left_on="a", right_on="j", how=h)), order_free=True, index_free=True, tags={"joinpred"})
+    # ... with a predicate that is true on the null-filled rows (the variants with one key in the INDEX are C03's own: vf/props/C03.py)
+    P(f"merge_diffkeys_{_how}_filter_left_key_not", lambda t, h=_how: (lambda m: m[~(m.a > 1)])(t.df[["a", "u"]].merge(t.df2[["a", "w"]].rename(columns={"a": "j"}), left_on="a", right_on="j", how=h)), order_free=True, index_free=True, tags={"joinpred"})
+# combine_first with an independent source whose rows overlap the frame's (evaluable on every layout: the programs below
+# run into a pandas error on known divisions, where alignment leaves empty partitions of a frame with an integer column)
+P("combine_first_overlapping_source_shared_column", lambda t: t.df[["a", "b"]].combine_first(t.df2[["b"]])[["b"]], needs_range=True, order_free=True)
+P("combine_first_overlapping_source_two_columns", lambda t: t.df[["a", "b"]].combine_first(t.df2[["b", "u"]].astype("float64"))[["u", "b"]], needs_range=True, order_free=True)
 # column selections of combine_first of two independent sources that share a column with missing values
 # (operands with unknown divisions are aligned by a hash shuffle: row order undefined)
 P("combine_first_other_source_shared_column", lambda t: t.df[["a", "b"]].combine_first(t.df3[["b", "u"]])[["b"]], needs_range=True, order_free=True)
